@@ -436,6 +436,58 @@ def env_matrix(res: Result, docs):
                     break
 
 
+def huge_oracle(res: Result, ctx: Ctx, which):
+    """documents beyond any plausible internal size cap (a line of more than a million characters, a
+    look-ahead run of more than 130 000 lines).  They are too large for the model's list-based driver, so
+    they are checked on the implementation alone against what they are constructed to contain: every line
+    handed to the builder once and in order, every element at its constructed position with its text."""
+    if "line" in which:
+        n = ctx.n(1_200_000, 9_000_000)
+        long_ = "x" * n
+        src = f"Feature: f\n  Scenario: s\n    Given {long_}\n      | {long_} | b |\n    Then after\n"
+        o = impl.parse(src, False)
+        case = {"source_description": f"step text and table cell of {n} characters", "source": src[:80] + "…"}
+        res.note(case, True)
+        bad = None
+        if "ok" not in o:
+            bad = "rejected or crashed: " + str(o.get("errors") or o.get("crash"))[:200]
+        else:
+            steps = o["ok"]["feature"]["children"][0]["scenario"]["steps"]
+            if o.get("buildLines") != [1, 2, 3, 4, 5, 6]:
+                bad = f"lines handed to the builder: {o.get('buildLines')[:12]} (expected 1..5 then end of file at 6)"
+            elif len(steps) != 2 or steps[0]["text"] != long_ or steps[1]["location"] != {"line": 5, "column": 5}:
+                bad = f"steps: {[(s_['location'], len(s_['text'])) for s_ in steps][:5]} (expected text of {n} characters at 3:5 and 'after' at 5:5)"
+            else:
+                cells = steps[0]["dataTable"]["rows"][0]["cells"]
+                if [len(c["value"]) for c in cells] != [n, 1] or cells[1]["location"] != {"line": 4, "column": n + 12}:
+                    bad = f"cells: {[(c['location'], len(c['value'])) for c in cells][:4]}"
+        if bad:
+            res.fail("huge", case, bad, "every line read whole, once; elements at their constructed positions", bad)
+    if "run" in which:
+        n = ctx.n(140_000, 600_000)
+        run = "".join(["  @t\n", "  # c\n", "\n"][i % 3] for i in range(n))
+        src = "Feature: f\n  Scenario Outline: o\n    Given <a>\n  @first\n" + run + "    Examples:\n      | a |\n      | 1 |\n"
+        o = impl.parse(src, False)
+        case = {"source_description": f"look-ahead run of {n} tag / comment / blank lines before Examples", "source": src[:80] + "…"}
+        res.note(case, True)
+        nl = src.count("\n")
+        bad = None
+        if "ok" not in o:
+            bad = "rejected or crashed: " + str(o.get("errors") or o.get("crash"))[:200]
+        elif o.get("buildLines") != list(range(1, nl + 2)):
+            bl = o.get("buildLines") or []
+            k = next((i for i, (a, b) in enumerate(zip(bl, range(1, nl + 2))) if a != b), min(len(bl), nl + 1))
+            bad = f"{len(bl)} lines handed to the builder, expected {nl + 1}; first deviation at position {k}: {bl[k:k + 3]}"
+        else:
+            ex = o["ok"]["feature"]["children"][0]["scenario"]["examples"][0]
+            want_tags = 1 + sum(1 for i in range(n) if i % 3 == 0)
+            want_comments = sum(1 for i in range(n) if i % 3 == 1)
+            if len(ex["tags"]) != want_tags or len(o["ok"]["comments"]) != want_comments or ex["location"]["line"] != 5 + n:
+                bad = f"examples at line {ex['location']['line']} with {len(ex['tags'])} tags, {len(o['ok']['comments'])} comments; expected line {5 + n}, {want_tags} tags, {want_comments} comments"
+        if bad:
+            res.fail("huge", case, bad, "every line handed to the builder once, in order", bad)
+
+
 def run_C01(ctx: Ctx) -> Result:
     rng = ctx.rng
     docs = streams.corpus_docs() + streams.doc_mix(rng, ctx.n(1200, 12000)) + unicode_soup(rng, ctx.n(600, 6000))
@@ -656,6 +708,7 @@ def run_C04(ctx: Ctx) -> Result:
     rows = ["@" + s for s in gens.strings_over(alpha, ctx.n(5, 7))] + ["  @" + s for s in gens.strings_over(alpha, 4)]
     rows += ["@" + s for s in gens.strings_over(["@", "a", "\u00a0", "\u3000", "\x85", "\u2028", "#"], 4)]
     res.merge(streams.line_stream("tags", rows, impl.tags, "tags"))
+    huge_oracle(res, ctx, ("line",))
     # Markdown tag lines: every tag is located at its own '@' (columns of the Markdown matcher)
     md_compare(res, [("TagLine", "en", l + "\n") for l in MD_TAG_LINES + ["".join(t) for t in gens.strings_over(["`", "@", "a", " "], ctx.n(7, 8))]])
     return res
@@ -1739,6 +1792,7 @@ def run_C18(ctx: Ctx) -> Result:
             res.fail("history", {"source": src, "note": "second and later parses through one Parser instance"}, a_, b_,
                      "a reused Parser delivers/reports different lines than a fresh one: " + str(first_diff(a_, b_)))
             break
+    huge_oracle(res, ctx, ("run", "line"))
     # direct oracle: accepted → builds are lines 1..n then EOF; rejected (below cap) → partition
     for src in docs:
         if impl.is_existing_path(src):
